@@ -188,7 +188,7 @@ impl EnvModel {
     /// A directory is absent when it would hold nothing.
     pub fn spec_files(&self) -> Snap {
         let mut s = Snap::default();
-        let mut write_delta = |dir: Vec<u8>, d: &Delta, s: &mut Snap| {
+        let write_delta = |dir: Vec<u8>, d: &Delta, s: &mut Snap| {
             if d.is_empty() {
                 return;
             }
